@@ -1,0 +1,27 @@
+//go:build verif
+
+package ipa
+
+import "github.com/crate-crypto/go-ipa/bandersnatch/fr"
+
+// Verification hooks (build tag "verif").
+
+// VerifWeights returns copies of the two precomputed tables.
+func VerifWeights(pw *PrecomputedWeights) (bary, invDom []fr.Element) {
+	bary = append(bary, pw.barycentricWeights...)
+	invDom = append(invDom, pw.invertedDomain...)
+	return
+}
+
+// VerifComputeBVector exposes the in-domain / out-of-domain vector selection.
+func VerifComputeBVector(ic *IPAConfig, evalPoint fr.Element) []fr.Element {
+	return computeBVector(ic, evalPoint)
+}
+
+// VerifNumRounds returns the configured number of rounds.
+func VerifNumRounds(ic *IPAConfig) uint32 { return ic.numRounds }
+
+// VerifLabels returns the package-level Fiat-Shamir labels (for mutation fingerprints).
+func VerifLabels() [][]byte {
+	return [][]byte{labelDomainSep, labelC, labelInputPoint, labelOutputPoint, labelW, labelL, labelR, labelX}
+}
